@@ -8,7 +8,7 @@ LEVEL_TEXT = ("subsample is evaluated on every pair of ordered grids of length <
               "graph shape up to 5 nodes and every histogram with kmax<=4, compared with exact Fraction arithmetic at x in {1/4,1/2,3/4,1}.")
 LEVEL_NOTE = "evaluation points in (0,1] only; graphs with at least one edge for estimate_R0 and get_Pnk"
 RULE = "one evaluation = one input tuple; non-trivial = grids with at least two distinct observation times / graphs with an edge"
-BOUNDS = {"quick": "time grids length<=4, report grids length<=3; series length<=4; all graph shapes on <=5 nodes, each followed by every in-place move of one edge to a non-edge and back on the same graph object (get_Pk, get_Pnk, estimate_R0 asked again after each); histograms counts<=2", "thorough": "report grids length<=4; series length<=5; trees on 6 nodes, regular graphs; histogram counts<=3"}
+BOUNDS = {"quick": "time grids length<=4, report grids length<=3; series length<=4; all graph shapes on <=5 nodes, each followed by every in-place move of one edge to a non-edge and back, then a node added, joined and removed again, on the same graph object (get_Pk, get_Pnk, estimate_R0 asked again after each); histograms counts<=2", "thorough": "report grids length<=4; series length<=5; trees on 6 nodes, regular graphs; histogram counts<=3"}
 ASSUMPTIONS = ["report_times[0] >= times[0] (documented precondition; the EoNError otherwise is expected)"]
 
 
